@@ -133,3 +133,109 @@ var EtherTypes = []int{0x0800, 0x86dd, 0x0806, 0x8808, 0x8899, 0x88cc, 0x890d, 0
 var Protos = []int{17, 6, 1, 58, 2, 0, 41, 47, 50, 89, 255}
 
 func Pick(r *rand.Rand, xs []int) int { return xs[r.Intn(len(xs))] }
+
+// ---- application payload builders (independent of the library) ----
+
+// DNSName encodes a dotted name without compression.
+func DNSName(name string) []byte {
+	var b []byte
+	start := 0
+	for i := 0; i <= len(name); i++ {
+		if i == len(name) || name[i] == '.' {
+			if i > start {
+				b = append(b, byte(i-start))
+				b = append(b, name[start:i]...)
+			}
+			start = i + 1
+		}
+	}
+	return append(b, 0)
+}
+
+type RR struct {
+	Name  string
+	Type  int
+	Class int
+	TTL   int
+	Data  []byte
+}
+
+// DNSMsg builds a DNS message (uncompressed names; pointer 0xc00c used for answer names when ptr is true).
+func DNSMsg(id int, flags int, qname string, qtype int, answers []RR, ptr bool) []byte {
+	b := append(be16(id), be16(flags)...)
+	qd := 0
+	if qname != "" {
+		qd = 1
+	}
+	b = append(b, be16(qd)...)
+	b = append(b, be16(len(answers))...)
+	b = append(b, 0, 0, 0, 0)
+	if qname != "" {
+		b = append(b, DNSName(qname)...)
+		b = append(b, be16(qtype)...)
+		b = append(b, 0, 1)
+	}
+	for _, a := range answers {
+		if ptr && a.Name == qname && qname != "" {
+			b = append(b, 0xc0, 0x0c)
+		} else {
+			b = append(b, DNSName(a.Name)...)
+		}
+		b = append(b, be16(a.Type)...)
+		cl := a.Class
+		if cl == 0 {
+			cl = 1
+		}
+		b = append(b, be16(cl)...)
+		b = append(b, byte(a.TTL>>24), byte(a.TTL>>16), byte(a.TTL>>8), byte(a.TTL))
+		b = append(b, be16(len(a.Data))...)
+		b = append(b, a.Data...)
+	}
+	return b
+}
+
+// DHCP builds a BOOTP/DHCP message with the given options (code → value), message type first, End last.
+func DHCP(op int, xid []byte, flags int, ciaddr, yiaddr []byte, chaddr []byte, msgType int, opts [][2][]byte) []byte {
+	b := make([]byte, 240)
+	b[0] = byte(op)
+	b[1] = 1
+	b[2] = 6
+	copy(b[4:8], xid)
+	b[10], b[11] = byte(flags>>8), byte(flags)
+	copy(b[12:16], ciaddr)
+	copy(b[16:20], yiaddr)
+	copy(b[28:34], chaddr)
+	copy(b[236:240], []byte{99, 130, 83, 99})
+	b = append(b, 53, 1, byte(msgType))
+	for _, o := range opts {
+		b = append(b, o[0][0], byte(len(o[1])))
+		b = append(b, o[1]...)
+	}
+	b = append(b, 255)
+	for len(b) < 300 {
+		b = append(b, 0)
+	}
+	return b
+}
+
+// RA builds an ICMPv6 router advertisement with raw option bytes appended.
+func RA(hop int, flags int, lifetime int, opts []byte) []byte {
+	b := []byte{134, 0, 0, 0, byte(hop), byte(flags), byte(lifetime >> 8), byte(lifetime), 0, 0, 0, 0, 0, 0, 0, 0}
+	return append(b, opts...)
+}
+
+func RAPrefixOpt(plen int, flags int, valid, pref int, prefix []byte) []byte {
+	b := []byte{3, 4, byte(plen), byte(flags), byte(valid >> 24), byte(valid >> 16), byte(valid >> 8), byte(valid), byte(pref >> 24), byte(pref >> 16), byte(pref >> 8), byte(pref), 0, 0, 0, 0}
+	return append(b, prefix...)
+}
+func RAMTUOpt(mtu int) []byte {
+	return []byte{5, 1, 0, 0, byte(mtu >> 24), byte(mtu >> 16), byte(mtu >> 8), byte(mtu)}
+}
+func RASLLAOpt(mac []byte) []byte { return append([]byte{1, 1}, mac...) }
+func RARDNSSOpt(lifetime int, servers ...[]byte) []byte {
+	b := []byte{25, byte(1 + 2*len(servers)), 0, 0, byte(lifetime >> 24), byte(lifetime >> 16), byte(lifetime >> 8), byte(lifetime)}
+	for _, s := range servers {
+		b = append(b, s...)
+	}
+	return b
+}
